@@ -481,6 +481,56 @@ func c05units(tier string) []mc.Unit {
 			}})
 		}
 	}
+	// rejection must not depend on what was hashed before: accept a sequence under one declaration, then
+	// present the same letters under a declaration that must be refused
+	us = append(us, mc.Unit{Name: "reject-after-accept", Weight: 30, Run: func(r *mc.Recorder) {
+		var cnt int64
+		bad := func(what, s, typ string, circ, ds bool) {
+			var err error
+			p := catch(func() { _, err = seqhash.Hash(s, typ, circ, ds) })
+			cnt++
+			if p != "" || err == nil {
+				r.Failf("reject-after-accept", fmt.Sprintf("%s: %q as %s circ=%v ds=%v", what, s, typ, circ, ds), nil, "error", fmt.Sprint("no error / panic: ", p))
+			}
+		}
+		for n := 1; n <= 2; n++ {
+			enumStrings(protAlpha, n, func(b []byte) {
+				s := string(b)
+				nuc := true
+				for _, ch := range s {
+					if !strings.ContainsRune(nucAccepted, ch) {
+						nuc = false
+					}
+				}
+				for _, circ := range []bool{false, true} {
+					if _, err := seqhash.Hash(s, "PROTEIN", circ, false); err != nil {
+						continue
+					}
+					bad("after hashing it as a single-stranded protein", s, "PROTEIN", circ, true)
+					if !nuc {
+						bad("after hashing it as a protein", s, "DNA", circ, false)
+						bad("after hashing it as a protein", s, "RNA", circ, false)
+					}
+				}
+			})
+		}
+		for n := 1; n <= 3; n++ {
+			enumStrings("ACGT", n, func(b []byte) {
+				s := string(b)
+				for _, circ := range []bool{false, true} {
+					if _, err := seqhash.Hash(s, "DNA", circ, true); err != nil {
+						continue
+					}
+					bad("after hashing it as double-stranded DNA", s, "PROTEIN", circ, true)
+					bad("after hashing it as double-stranded DNA", s, "dna", circ, true)
+				}
+			})
+		}
+		r.Eval(cnt)
+		r.AddStates(cnt)
+		r.AddTransitions(cnt)
+		r.AddNontrivial(cnt)
+	}})
 	// rejection
 	us = append(us, mc.Unit{Name: "reject", Weight: 10, Run: func(r *mc.Recorder) {
 		var cnt int64
